@@ -16,7 +16,7 @@ def run(ctx):
     thorough = ctx.tier == "thorough"
     for config in ("stable", "nightly"):
         rows = exprun.select(facts, config)
-        cases_a, meta = exprun.gen_cases(ctx, rows, lambda L: CONST_DIMS, ("random", "boundary") if thorough else ("random",),
+        cases_a, meta = exprun.gen_cases(ctx, rows, lambda L: CONST_DIMS, ("random", "boundary", "special") if thorough else ("random", "special"),
                                          places=("R",), forms=("a",), seed_tag=12)
         cases_c = []
         for c, m in zip(cases_a, meta):
@@ -57,8 +57,14 @@ def run(ctx):
     entries = list(enumerate(facts.get("safe_entries", [])))
     for config, masks in (("stable", [0, 2, 6]), ("nightly", [0])):
         mism = [(0, 0, 0, 0), (0, 1, 0, 0), (0, 0, 1, 0)]
-        cases, meta = saferun.gen_safe_cases(ctx, facts, config, entries, CONST_DIMS if thorough else [0, 3, 17, 65], mism, masks,
-                                             forms=("a",), seed_tag=13)
+        lens = CONST_DIMS if thorough else [0, 1, 3, 17, 65]
+        cases, meta = saferun.gen_safe_cases(ctx, facts, config, entries, lens, mism, masks, forms=("a",), seed_tag=13)
+        # special values (signed zeros, NaN, infinities, subnormals; integer boundaries) on documented calls: a shortcut
+        # taken by only one of the two forms shows on such data (e.g. -0.0 or NaN in a one-element reduction)
+        for cls, tag in (("special", 131), ("boundary", 132)):
+            c2, m2 = saferun.gen_safe_cases(ctx, facts, config, entries, [0, 1, 3, 8, 17], [(0, 0, 0, 0)], masks[:1], forms=("a",),
+                                            cls=cls, seed_tag=tag)
+            cases, meta = cases + c2, meta + m2
         cases_c = []
         for c, m in zip(cases, meta):
             sidx, s, form, n, delta, mask = m
